@@ -493,7 +493,7 @@ func mapActorProperties(mm map[string][]byte, a *Actor) (hasData bool, err error
 		}
 		hasData = true
 	}
-	if len(a.PublicKey.PublicKeyPem)+len(a.PublicKey.ID) > 0 {
+	if len(a.PublicKey.PublicKeyPem)+len(a.PublicKey.ID)+len(a.PublicKey.Owner) > 0 {
 		if mm["publicKey"], err = a.PublicKey.GobEncode(); err != nil {
 			return hasData, err
 		}
